@@ -19,6 +19,10 @@ def Reg.name (r : Reg) : String :=
   | .gpr8 => names8.getD r.num "?" | .gpr8h => names8h.getD r.num "?"
   | .mm => "mm" ++ toString r.num | .xmm => "xmm" ++ toString r.num | .ymm => "ymm" ++ toString r.num
 
+def regBits (r : Reg) : Nat :=
+  match r.file with
+  | .gpr8 | .gpr8h => 8 | .gpr16 => 16 | .gpr32 => 32 | .gpr64 => 64 | .mm => 64 | .xmm => 128 | .ymm => 256
+
 /-- how a number is written -/
 inductive NumStyle | dec | hex | hexPad (digits : Nat)
 deriving DecidableEq, Repr
@@ -82,7 +86,10 @@ def Dec.asm (st : Style) (d : Dec) : String :=
   -- the count register of a shift does not say how wide the shifted operand is
   let shift := ["ror", "rcr", "shl", "shr", "sar", "sal", "shld", "shrd"].contains d.mn
   let sized := if shift && d.ops.getLast? == some (.reg ⟨.gpr8, 1⟩) then d.ops.dropLast else d.ops
-  let hasReg := sized.any fun o => match o with | .reg _ => true | _ => false
+  let memBits := (d.ops.filterMap fun o => match o with | .mem m => some m.size | _ => none).headD 0
+  -- a register operand of the memory operand's width fixes that width
+  -- (movzx: the destination never fixes the width of the source)
+  let hasReg := d.mn != "movzx" && sized.any fun o => match o with | .reg r => regBits r == memBits | _ => false
   let far := d.mn == "callf" || d.mn == "jmpf"
   let mn := if d.mn == "callf" then "call" else if d.mn == "jmpf" then "jmp" else d.mn
   let ops := d.ops.filter fun o => match o with
